@@ -99,6 +99,11 @@ def adversarial_scheds(data, rng):
 def run_tokens(outcome, tier, seed):
     p = subprocess.run([common.HARNESS_BIN, "tokens", "--seed", str(seed), "--tier", tier], stdout=subprocess.PIPE,
                        stderr=subprocess.DEVNULL, env=common.ENV, timeout=3000)
+    if p.returncode == 3:
+        h = json.loads(p.stdout.decode().strip().split("\n")[-1])
+        fmt, _, hx = h.get("hang", " ").partition(" ")
+        outcome.oracle_failures.append({"what": "hang on a short token sequence (slice or reader does not terminate)", "from": fmt, "input_hex": hx})
+        return
     if p.returncode != 0:
         raise RuntimeError("harness tokens failed")
     st = json.loads(p.stdout)
